@@ -10,6 +10,7 @@ import (
 	"github.com/projectcalico/calico/felix/types"
 
 	"verifharness/nfparse"
+	"verifharness/polgen"
 	"verifharness/tracelog"
 )
 
@@ -42,7 +43,7 @@ func runC08(env tracelog.Env, log *tracelog.Log) error {
 		if t%3 == 2 {
 			ipv = 6
 		}
-		sg := &setGen{rnd: rnd, ipv: ipv}
+		sg := polgen.NewSetGen(rnd, ipv)
 		r := randRule(rnd, ipv, sg)
 		cfg := baseConfig()
 		cfg.FlowLogsEnabled = chance(rnd, 40)
@@ -71,7 +72,7 @@ func runC08(env tracelog.Env, log *tracelog.Log) error {
 			} else {
 				prog.Chains["rule"] = []nfparse.Rule{}
 			}
-			byID, byName := setsJSON(sg.sets, &cfg, ipv, nft)
+			byID, byName := setsJSON(sg.Sets(), &cfg, ipv, nft)
 			deny := "drop"
 			if cfg.FilterDenyAction == "REJECT" {
 				deny = "reject"
